@@ -233,6 +233,28 @@ theorem inv_step (caps : Caps) (s s' : St) (a : Act) (hI : Inv s) (h : step .fix
             (by simp [hfw]) (by simp [setFwd])
           exact ⟨hI.1, extra_set hI _ (by simp [setFwd, hx]), by simp only; omega, hI.4, hI.5⟩
         · simp at h
+  | emitBad k f =>
+    simp only at h
+    split at h
+    · simp at h
+    · rename_i st hk
+      have hx := hI.noextra st (List.mem_of_getElem? hk)
+      split at h
+      · simp at h
+      · split at h
+        · rename_i hg
+          obtain ⟨rfl, hfw⟩ := getFwd_zero st hx f _ hg
+          simp only [fwdExit, Variant.fixed, if_true, Option.some.injEq] at h; subst h
+          have h2 := count_move hI hk (setFwd st 0 .done) 1 0 (by simp [hfw]) (by simp [setFwd])
+          have hpos := live_pos hk (by simp [live, hfw])
+          rw [← hI.count] at hpos
+          refine ⟨hI.1, extra_set hI _ (by simp [setFwd, hx]), by simp only; omega, ?_, hI.5⟩
+          intro hc
+          simp only [Bool.or_eq_true, beq_iff_eq] at hc
+          rcases hc with hc | hc
+          · have := hI.closedZero hc; omega
+          · exact hc
+        · simp at h
   | svcClose k =>
     simp only at h
     split at h
@@ -476,6 +498,20 @@ theorem inv2_step (caps : Caps) (s s' : St) (a : Act) (hI : Inv s) (hJ : Inv2 s)
       · split at h
         · simp only [Option.some.injEq] at h; subst h; exact ⟨hJ.1, hJ.2, hJ.3⟩
         · simp at h
+  | emitBad k f =>
+    simp only at h
+    split at h
+    · simp at h
+    · rename_i st hk
+      have hx := hI.noextra st (List.mem_of_getElem? hk)
+      split at h
+      · simp at h
+      · split at h
+        · rename_i hg
+          obtain ⟨rfl, hfw⟩ := getFwd_zero st hx f _ hg
+          simp only [fwdExit, Variant.fixed, if_true, Option.some.injEq] at h; subst h
+          exact ⟨hJ.1, hJ.2, hJ.3⟩
+        · simp at h
   | svcClose k =>
     simp only at h
     split at h
@@ -713,6 +749,7 @@ theorem dataOf_append (l₁ l₂ : List Frame) : dataOf (l₁ ++ l₂) = dataOf 
 def passive : Act → Bool
   | .cSend _ => false
   | .cLeave => false
+  | .emitBad _ _ => false   -- (the service hands out values that can be encoded)
   | _ => true
 
 /-- invariant of a stream opened by one valid request whose client only listens -/
@@ -851,6 +888,7 @@ theorem hinv_step (caps : Caps) (s s' : St) (a : Act) (hI : Inv s) (hH : HInv s)
             subst hst
             simp [setFwd] at hd
         · simp at h
+  | emitBad k f => simp [passive] at hpa
   | svcClose k =>
     simp only at h
     split at h
@@ -1125,6 +1163,7 @@ def internal : Act → Bool
   | .cSend _ => false
   | .cLeave => false
   | .emit _ _ _ => false
+  | .emitBad _ _ => false
   | .svcClose _ => false
   | _ => true
 
@@ -1561,6 +1600,27 @@ theorem ginv_step (caps : Caps) (s s' : St) (a : Act) (hI : Inv s) (hJ : Inv2 s)
             simp only [ExactK, hfw, heldOf, List.append_nil] at he
             simp [ExactK, setFwd, heldOf, he]
         · simp at h
+  | emitBad k f =>
+    simp only at h
+    split at h
+    · simp at h
+    · rename_i st hk
+      have hx := hI.noextra st (List.mem_of_getElem? hk)
+      split at h
+      · simp at h
+      · split at h
+        · rename_i hg
+          obtain ⟨rfl, hfw⟩ := getFwd_zero st hx f _ hg
+          simp only [fwdExit, Variant.fixed, if_true, Option.some.injEq] at h; subst h
+          refine ginv_set hG hk _ rfl rfl rfl rfl rfl rfl (fun hc => by simp [hc]) rfl rfl rfl rfl ?_ ?_
+          · intro _ ho
+            have := ho.2 (by simp [hfw])
+            simp only [hfw, heldOf, List.append_nil] at this
+            exact ⟨fun _ => by simp [setFwd, this], fun hd => by simp [setFwd] at hd⟩
+          · intro _ _ he
+            simp only [ExactK, hfw, heldOf, List.append_nil] at he
+            simp [ExactK, setFwd, heldOf, he]
+        · simp at h
   | svcClose k =>
     simp only at h
     split at h
@@ -1976,6 +2036,19 @@ theorem inv3_step (caps : Caps) (s s' : St) (a : Act) (hI : Inv s) (hG : GInv s)
       · split at h
         · simp only [Option.some.injEq] at h; subst h
           exact sameS k st _ hk (by rw [setFwd_refused])
+        · simp at h
+  | emitBad k f =>
+    simp only at h
+    split at h
+    · simp at h
+    · rename_i st hk
+      have hx := hI.noextra st (List.mem_of_getElem? hk)
+      split at h
+      · simp at h
+      · split at h
+        · rename_i hg
+          obtain ⟨rfl, hfw⟩ := getFwd_zero st hx f _ hg
+          simp only [Option.some.injEq] at h; subst h; exact inv3_fwdExit hK hk 0
         · simp at h
   | svcClose k =>
     simp only at h
@@ -2438,6 +2511,20 @@ theorem nil_step (caps : Caps) (s s' : St) (a : Act) (hI : Inv s) (hN : NilL s.s
           simp only [Option.some.injEq] at h; subst h
           exact hset k f st _ _ _ hk hg (by simp) rfl rfl
         · simp at h
+  | emitBad k f =>
+    simp only at h
+    split at h
+    · simp at h
+    · rename_i st hk
+      have hx := hI.noextra st (List.mem_of_getElem? hk)
+      split at h
+      · simp at h
+      · split at h
+        · rename_i hg
+          obtain ⟨rfl, hfw⟩ := getFwd_zero st hx f _ hg
+          simp only [fwdExit, Variant.fixed, if_true, Option.some.injEq] at h; subst h
+          exact hset k 0 st _ _ _ hk hg (by simp) rfl rfl
+        · simp at h
   | svcClose k =>
     simp only at h
     split at h
@@ -2632,6 +2719,31 @@ theorem c15_full_fails_nil_unsafe : ¬ C15_full .nilUnsafe := by
   have := (h caps10 .nostop [.aStep, .cLeave, .rStep, .aStep, .stop 0] (by decide)).1
   rw [c15_old_nil_stop_channel_crashes_client_leaves.1] at this
   cases this
+
+/-! ### a value the service emits that cannot be encoded -/
+
+/-- **what a value `protobuf.Encode` refuses does to a stream** (processor.go:631-635; all theorems
+above hold with the action `emitBad` among the service's — no crash, order, completeness of what can
+be delivered, tear-down): the forwarder of that channel ends.  With one channel the stream then ends
+with the *normal* close although the service has not closed its channel, and the service is told to
+stop at tear-down.  With two channels the stream goes on for the other one; the first channel's
+service is neither drained (no value of it is taken any more, whatever it emits) nor told to stop
+as long as the stream lives — it is told when the stream ends. -/
+theorem c15_unencodable_value_ends_its_forwarder :
+    let one := run .fixed caps10 (init .fresh)
+      [.aStep, .emit 0 0 1, .fStep 0 0, .emitBad 0 0, .wOut, .wOut, .rStep, .aStep, .stop 0]
+    let two := run .fixed caps10 (init .fresh)
+      [.aStep, .cSend .fresh, .rStep, .rStep, .aStep, .emitBad 0 0, .emit 1 0 5, .fStep 1 0, .wOut, .stop 0]
+    let fin := run .fixed caps10 two [.svcClose 1, .fStep 1 0, .wOut, .rStep, .aStep, .stop 0, .stop 1]
+    (one.s2c = [.data 0 1, .closeNormal] ∧ one.panic = none ∧
+      (one.streams.map (fun st => (st.chanClosed, st.fwd, st.stopClosed))) = [(false, .done, true)]) ∧
+    (two.s2c = [.data 1 5] ∧ two.wdone = false ∧ two.stopAll = false ∧
+      (two.streams.map (fun st => (st.chanClosed, st.fwd, st.stopClosed))) = [(false, .done, false), (false, .recv, false)] ∧
+      step .fixed caps10 two (.stop 0) = none ∧ (∀ v, step .fixed caps10 two (.emit 0 0 v) = none)) ∧
+    (fin.s2c = [.data 1 5, .closeNormal] ∧ (fin.streams.map (·.stopClosed)) = [true, true]) := by
+  refine ⟨by decide, ⟨by decide, by decide, by decide, by decide, by decide, ?_⟩, by decide⟩
+  intro v
+  rfl
 
 /-! ### the client's read options are per read -/
 
